@@ -153,3 +153,93 @@ func VT_C17_Execute() {
 	}
 	vt.Reach("done")
 }
+
+// Members complete in an order chosen by the harness (each released only after the previous response has been taken
+// in): the error returned is the first one observed; once the outcome is decided the remaining members' contexts are
+// cancelled (members that wait for cancellation still let the call return).
+func VT_C17_OrderedCompletion() {
+	n := vt.Bound("orderedMembers", 3, 3)
+	strategy := []ExecutionStrategy{ExecutionStrategyAll, ExecutionStrategyMost, ExecutionStrategyAny}[vt.Choose("strategy", 3)]
+	perms := [][]int{{0, 1, 2}, {0, 2, 1}, {1, 0, 2}, {1, 2, 0}, {2, 0, 1}, {2, 1, 0}}
+	order := perms[vt.Choose("order", len(perms))]
+	gates := make([]chan struct{}, n)
+	specs := make([]vtMember, n)
+	members := make([]Member, n)
+	for i := 0; i < n; i++ {
+		i := i
+		gates[i] = make(chan struct{})
+		specs[i] = vtMember{msg: vt.Msg(vtNames[i] + ".msg"), err: vt.Err(vtNames[i] + ".err"), fail: vt.Choose(vtNames[i]+".fail", 2) == 1}
+		members[i] = func(ctx context.Context) (proto.Message, error) {
+			<-gates[i]
+			if specs[i].fail {
+				return nil, specs[i].err
+			}
+			return specs[i].msg, nil
+		}
+	}
+	for i := 0; i < n; i++ {
+		for j := i + 1; j < n; j++ {
+			vt.Assume(vt.ErrID(specs[i].err) != vt.ErrID(specs[j].err))
+		}
+	}
+	go func() {
+		for _, i := range order {
+			close(gates[i])
+			vt.Settle() // the response of member i has been taken in before the next member completes
+		}
+	}()
+	_, err := Execute(context.Background(), strategy, members)
+	fails := vtCountFail(specs)
+	var wantErr bool
+	switch strategy {
+	case ExecutionStrategyAll:
+		wantErr = fails > 0
+	case ExecutionStrategyMost:
+		wantErr = 2*fails > n
+	case ExecutionStrategyAny:
+		wantErr = fails == n
+	}
+	vt.Assert((err != nil) == wantErr, "threshold")
+	if err != nil && wantErr {
+		first := -1
+		for _, i := range order {
+			if specs[i].fail && first < 0 {
+				first = i
+			}
+		}
+		vt.Assert(vt.ErrID(err) == vt.ErrID(specs[first].err), "error-returned-is-the-first-one-observed")
+	}
+	vt.NoLeak()
+	vt.Reach("done")
+}
+
+// Cancellation-aware members: once the outcome is decided the others are cancelled, so the call returns.
+func VT_C17_CancelsRemainingMembers() {
+	strategy := []ExecutionStrategy{ExecutionStrategyAll, ExecutionStrategyFast, ExecutionStrategyRace, ExecutionStrategyMost}[vt.Choose("strategy", 4)]
+	e0 := vt.Err("e0")
+	m0 := vt.Msg("m0")
+	decider := func(ctx context.Context) (proto.Message, error) {
+		switch strategy {
+		case ExecutionStrategyAll, ExecutionStrategyMost:
+			return nil, e0 // a failure decides All; two of them decide Most (of three)
+		}
+		return m0, nil // a success decides Fast; any response decides Race
+	}
+	waiter := func(ctx context.Context) (proto.Message, error) {
+		<-ctx.Done() // only returns when cancelled
+		return nil, ctx.Err()
+	}
+	members := []Member{decider, waiter}
+	if strategy == ExecutionStrategyMost {
+		members = []Member{decider, decider, waiter}
+	}
+	_, err := Execute(context.Background(), strategy, members) // must return: a hang is reported as a deadlock
+	switch strategy {
+	case ExecutionStrategyAll, ExecutionStrategyMost:
+		vt.Assert(err != nil, "decided-failure-is-reported")
+	case ExecutionStrategyFast, ExecutionStrategyRace:
+		vt.Assert(err == nil, "decided-success-is-reported")
+	}
+	vt.NoLeak()
+	vt.Reach("done")
+}
